@@ -515,8 +515,55 @@ def u_xy(root):
     eng.verify("XYContainer", "_calculate_total_error", contract=c)
     return eng
 
+def u_xy_setters(root):
+    """XYContainer.x / .y setters: EVERY source of that axis - enabled or not - is re-pointed to the new values (a source that is enabled later must not
+    keep the old reference), sources of the other axis are left alone, the cached totals are dropped"""
+    eng = mk_engine(root, owner_cls="XYContainer")
+    errlib.c_reference_setter(eng)
+    ES, ESlen = H("_error_dicts", "namemap")[me], H("_error_dicts", "namemap", "len")[me]
+    ERR, AX = H("err", "ref"), H("axis", "int")
+    n = H("_data", "mat", "cols")[me]
+    inline(eng, "XYContainer", "_get_data_for_axis", kind=None)
+    eng.lib["np.array"] = eng.lib["np.squeeze"] = lambda e, st, a, kw, node: a[0]
+    newv = VSeq.fresh("new_values")
+    for name, ax in (("x", 0), ("y", 1)):
+        c = Contract("XYContainer", name, "setter")
+        c.requires.append(lambda vw: z3.And(newv.len == n, n >= 0, ESlen >= 0, H("_data", "mat", "rows")[me] == 2, errlib.distinct_sources(vw.pre, ES, ESlen)))
+
+        def repointed_upto(s, k, ax=ax):
+            RK, RA, RL = s.h("_reference", "callref", "kind"), s.h("_reference", "callref", ""), s.h("_reference", "callref", "len")
+            CM, ISREL = s.h("_cov_mat", "ref"), H("_is_relative", "bool")
+            RK0, RA0 = H("_reference", "callref", "kind"), H("_reference", "callref", "")
+            return z3.ForAll([b_], z3.Implies(z3.And(0 <= b_, b_ < k), z3.If(AX[ES[b_]] == ax,
+                             z3.And(RK[ERR[ES[b_]]] == 1, RL[ERR[ES[b_]]] == n, z3.ForAll([a_], z3.Implies(z3.And(0 <= a_, a_ < n), RA[ERR[ES[b_]]][a_] == newv.arr[a_])), z3.Implies(ISREL[ERR[ES[b_]]], CM[ERR[ES[b_]]] == NULL)),
+                             z3.And(RK[ERR[ES[b_]]] == RK0[ERR[ES[b_]]], RA[ERR[ES[b_]]] == RA0[ERR[ES[b_]]], CM[ERR[ES[b_]]] == H("_cov_mat", "ref")[ERR[ES[b_]]]))))
+
+        def inv(e, s, ax=ax):
+            k = s.locals["#i0"].e
+            D = e.read_field(s, s.locals["self"], "_data")
+            RK0, RA0 = H("_reference", "callref", "kind"), H("_reference", "callref", "")
+            RK, RA, CM = s.h("_reference", "callref", "kind"), s.h("_reference", "callref", ""), s.h("_cov_mat", "ref")
+            return z3.And(0 <= k, k <= ESlen, D.rows == 2, D.cols == n, z3.ForAll([a_], z3.Implies(z3.And(0 <= a_, a_ < n), D.at(ax, a_) == newv.arr[a_])),
+                          s.h("_error_dicts", "namemap") == H("_error_dicts", "namemap"), s.h("err", "ref") == ERR, s.h("axis", "int") == AX, s.h("_is_relative", "bool") == H("_is_relative", "bool"), s.h("enabled", "bool") == H("enabled", "bool"),
+                          repointed_upto(s, k),
+                          z3.ForAll([b_], z3.Implies(z3.And(k <= b_, b_ < ESlen), z3.And(RK[ERR[ES[b_]]] == RK0[ERR[ES[b_]]], RA[ERR[ES[b_]]] == RA0[ERR[ES[b_]]], CM[ERR[ES[b_]]] == H("_cov_mat", "ref")[ERR[ES[b_]]]))))
+        c.loops[0] = inv
+        eng.loop_fields = True
+
+        def post(vw, ax=ax, repointed_upto=repointed_upto):
+            if vw.flow == "raise":
+                return [("raises only for more-than-one-dimensional input", z3.BoolVal(False))]
+            s = vw.post
+            D = F(vw, s, "_data")
+            return [("the new values are stored in that row", z3.ForAll([a_], z3.Implies(z3.And(0 <= a_, a_ < n), D.at(ax, a_) == newv.arr[a_]))), ("cached totals dropped", F(vw, s, "_total_error").none),
+                    ("EVERY source of this axis, enabled or not, refers to the new values (relative ones drop their cached absolute covariance); sources of the other axis are untouched", repointed_upto(s, ESlen))]
+        c.ensures.append(post)
+        eng.verify("XYContainer", name, "setter", lambda e, st, me_, name=name: {"new_" + name: newv}, contract=c)
+    return eng
+
+
 def units(root):
-    return [Unit("SimpleGaussianError._calculate_cov_mat_generic", u_generic), Unit("SimpleGaussianError caches", u_source), Unit("SimpleGaussianError setters", u_source_setters),
+    return [Unit("XYContainer.x / .y setters re-point every source of the axis", u_xy_setters), Unit("SimpleGaussianError._calculate_cov_mat_generic", u_generic), Unit("SimpleGaussianError caches", u_source), Unit("SimpleGaussianError setters", u_source_setters),
             Unit("SimpleGaussianError.error", u_source_error_getters), Unit("IndexedContainer total error", u_total), Unit("IndexedContainer mutators", u_mutators),
             Unit("HistContainer.fill invalidation", u_hist_invalidation), Unit("HistContainer._get_error_reference", u_hist_reference), Unit("parametric model: recompute before summing", u_model_recalc), Unit("HistParametricModel._recalculate re-points sources", u_hist_model_recalc),
             Unit("XYContainer total error", u_xy)]
